@@ -317,3 +317,16 @@ PROPS = {
         "assumptions": ["as C02"],
     },
 }
+
+
+# further properties: one file per property in bin/props.d/<id>.py defining PROP (same shape as the entries
+# above) and LEVEL (text, design_ref, note, technique); avoids merge conflicts between parallel work.
+import glob as _glob, os as _os, importlib.util as _ilu
+LEVELS_EXTRA = {}
+for _f in sorted(_glob.glob(_os.path.join(_os.path.dirname(_os.path.abspath(__file__)), "props.d", "*.py"))):
+    _spec = _ilu.spec_from_file_location("propsd_" + _os.path.basename(_f)[:-3], _f)
+    _m = _ilu.module_from_spec(_spec)
+    _m.COMMON_TB, _m.EVAL_RULE, _m.EVAL_TB, _m.EVAL_ASSUME = COMMON_TB, EVAL_RULE, EVAL_TB, EVAL_ASSUME
+    _spec.loader.exec_module(_m)
+    PROPS[_m.ID] = _m.PROP
+    LEVELS_EXTRA[_m.ID] = _m.LEVEL
